@@ -224,6 +224,70 @@ AGG["mode"] = [["i"]]
 AGG["percentile"] = [["x", L(0.5)], ["i", L(0.25)]]
 AGG["percentile_approx"] = [["x", L(0.5)], ["i", L(0.25)]]
 
+# ---------------------------------------------------------------------------------------------------------------
+# boundary templates for optional / integer arguments: 0, 1, a negative value where Spark defines one, argument omitted.
+# Appended (never inserted) so that the ids of the earlier templates stay stable.
+# ---------------------------------------------------------------------------------------------------------------
+def _more(fn, templates, table=None):
+    (ROW if table is None else table).setdefault(fn, [])
+    (ROW if table is None else table)[fn] = list((ROW if table is None else table)[fn]) + templates
+
+
+_B = Tag("boundary-argument")
+_more("overlay", [["s", "t", L(2), L(0), Tag("len-0")], ["s", "t", L(1), L(1), _B], ["s", "t", L(1), L(0), Tag("len-0")],
+                  ["s", "t", L(3), L(100), _B], ["s", "t", L(20), _B]])
+_more("substring", [["s", L(1), L(0), _B], ["s", L(0), L(2), Tag("pos-0")], ["s", L(1), L(1), _B], ["s", L(-1), L(5), _B], ["s", L(50), L(2), _B]])
+_more("substr", [["s", Lit(0), Lit(2), Tag("pos-0")], ["s", Lit(1), Lit(0), _B], ["s", Lit(-2), _B], ["s", Lit(1), Lit(1), _B]])
+for _f in ("lpad", "rpad"):
+    _more(_f, [["s", L(0), L("*"), _B], ["s", L(1), L("*"), _B], ["s", L(-1), L("*"), _B], ["s", L(14), L(""), Tag("empty-pad")]])
+_more("repeat", [["t", L(1), _B], ["t", L(-1), _B]])
+_more("split", [["s", L(","), L(0), Tag("limit")], ["s", L(","), L(1), Tag("limit")], ["s", L(","), L(-1), _B]])
+_more("slice", [["a", L(1), L(0), Tag("positive-start")], ["a", L(1), L(1), Tag("positive-start")], ["a", L(3), L(1), Tag("positive-start")],
+                ["a", L(-1), L(1), Tag("negative-start")], ["a", L(1), L(100), Tag("positive-start")]])
+_more("element_at", [["a", L(-2), _LI], ["a", L(3), _LI], ["sa", L(1), _LI]])
+_more("try_element_at", [["a", Lit(2), _LI], ["a", Lit(-2), _LI]])
+_more("Column.getItem", [[E("F.col('a')"), L(2), Tag("literal-key")], [E("F.col('a')"), L(9), Tag("literal-key")]])
+_more("locate", [[L("b"), "s", L(1), _B], [L("b"), "s", L(0), Tag("pos-0")], [L("b"), "s", L(-1), _B], [L("b"), "s", L(100), _B]])
+_more("round", [["x", L(0), _B], ["x", L(-1), _B], ["i", L(-1), _B], ["p", L(0), _B]])
+for _f in ("date_add", "date_sub", "dateadd"):
+    _more(_f, [["d", L(0), Tag("int-days")], ["d", L(1), Tag("int-days")], ["d", L(-1), Tag("int-days")]])
+_more("add_months", [["d", L(0), _B], ["d", L(1), _B], ["d", L(-1), _B], ["d", L(12), _B]])
+_more("levenshtein", [["s", "t", L(0), _B], ["s", "t", L(1), _B], ["s", "t", L(100), _B]])
+for _f in ("left", "right"):
+    _more(_f, [["s", Lit(0), _B], ["s", Lit(1), _B], ["s", Lit(-1), Tag("negative-len")], ["s", Lit(100), _B]])
+_more("split_part", [["s", Lit(","), Lit(-1), _B], ["s", Lit(","), Lit(1), _B], ["s", Lit(","), Lit(9), _B]])
+for _f in ("shiftleft", "shiftLeft", "shiftright", "shiftRight"):
+    _more(_f, [["j", L(0), _B], ["j", L(1), _B]])
+_more("regexp_extract", [["s", L("([a-z]+)([A-Z]*)"), L(2), _B]])
+_more("sequence", [["j", "j", Tag("default-step")], [Lit(1), Lit(9), Lit(4), Tag("explicit-step")], [Lit(9), Lit(1), Lit(-4), Tag("explicit-step")]])
+_more("array_position", [["a", L(10)], ["a", L(3)]])
+_more("sort_array", [["a", L(True), _B]])
+_more("array_join", [["sa", L("-"), L(""), _B]])
+_more("factorial", [["j", _B], [Lit(0), _B], [Lit(20), _B], [Lit(21), Tag("beyond-20")]])
+_more("months_between", [["e", "d", L(True)]])
+_more("first", [["s", L(False), _B]], AGG)
+_more("last", [["s", L(False), _B]], AGG)
+_more("percentile", [["x", L(0.0), _B], ["x", L(1.0), _B]], AGG)
+_more("percentile_approx", [["x", L(0.0), _B], ["x", L(1.0), _B]], AGG)
+_more("count_if", [[E("F.col('i') > 100")]], AGG)
+
+# aggregate groups: every aggregate is evaluated over each of these sub-frames (statistical aggregates special-case small samples)
+AGG_GROUPS = [("5 ordinary rows", lambda F: F.col("id") <= 5), ("the all-NULL row alone", lambda F: F.col("id") == 6),
+              ("1 row", lambda F: F.col("id") == 1), ("2 rows", lambda F: F.col("id") <= 2), ("3 rows", lambda F: F.col("id") <= 3)]
+AGG_NULL_GROUP = 1
+
+
+def run_row(df, cols):
+    got = df.select("id", *cols).collect()
+    got = sorted(got, key=lambda r: r[0])
+    return [[canon(r[k + 1]) for r in got] for k in range(len(cols))]
+
+
+def run_agg(df, F, cols):
+    res = [df.where(cond(F)).agg(*cols).collect()[0] for _, cond in AGG_GROUPS]
+    return [[canon(r[k]) for r in res] for k in range(len(cols))]
+
+
 NOT_EXERCISED = {
     **_same(["cume_dist", "dense_rank", "lag", "lead", "nth_value", "ntile", "percent_rank", "rank", "row_number"],
             "window function: needs an OVER clause; window values are property C08's"),
